@@ -9,10 +9,7 @@ Fixpoint has_bad_from (prev_paren : bool) (b : bytes) : bool :=
   | c :: r => if prev_paren && Ascii.eqb c (ascii_of_N 10) then true else has_bad_from (Ascii.eqb c "("%char) r
   end.
 Definition has_bad (b : bytes) : bool := has_bad_from false b.
-Definition wf_env : env := {|
-  e_fmt := fun src => if has_bad src then None else Some src;
-  e_sum_load := sumfile_load; e_sum_bytes := sumfile_bytes; e_enabled := simple_enabled;
-  e_order := fun _ l => l; e_fixed := true |}.
+Definition wf_env : env := whole_env (fun src => if has_bad src then None else Some src) (fun _ l => l) rank0 [].
 
 (* module m, packages a (types T0 T1 T2) and b (type T0), generators g1 and g2, All; previous outputs and a sum *)
 Definition wf_a : pkginfo :=
@@ -54,7 +51,7 @@ Proof. vm_compute. repeat split; reflexivity. Qed.
 
 (* a deferred callback of g1 returns ErrSkip: an error for a callback *)
 Lemma witness_deferred_error :
-  let '(s', tr, out) := wf_run (mk_step (bs "var A2 = 1") RNil false false [([], RSkip)]) (ok_step "var B0 = 1") in
+  let '(s', tr, out) := wf_run (mk_step (bs "var A2 = 1") RNil false false [SD [] RSkip []]) (ok_step "var B0 = 1") in
   out = Failed (EDefer (bs "g1") (bs "m/a")) /\ unchanged s' [a_g1; a_g2; b_g1; the_sum] = true.
 Proof. vm_compute. repeat split; reflexivity. Qed.
 
